@@ -390,9 +390,9 @@ def crash_finding(ctx, args, quick):
         pass
     scenario = [("fails to start" if p["fail"] else "pass %s" % p["reqs"]) for p in inp.get("script", [])]
     where = ""
-    m2 = re.search(r"(liveRequestGenerator\S*)\n\s*(\S+:\d+)", out)
+    m2 = re.search(r"\(\*(liveRequestGenerator\)[\w.]*)\S*\n\s*(\S+:\d+)", out)
     if m2:
-        where = " in %s at %s" % (m2.group(1).split("/")[-1], os.path.basename(m2.group(2)))
+        where = " in (*%s at %s" % (m2.group(1), os.path.basename(m2.group(2)))
     why = "the process crashes: %s%s; delegate script %s (capacity %s, rescan %.1f ms): a pass that fails to start must not " \
           "end live mode with a crash" % (m.group(1) if m else "the harness process died", where, scenario, inp.get("cap"),
                                           inp.get("rescan_us", 0) / 1000.0)
@@ -443,7 +443,7 @@ def run(ctx):
             ctx.skipped.append("e2e: the sx binary does not build: " + out[-300:])
         ok, _ = ctx.harness_run("c19", args, timeout=1500)
         if not ok:
-            crash_finding(ctx, [a for a in args if a not in ("-e2e",)], quick)
+            crash_finding(ctx, args, quick)
         if ok:
             allrows = ctx.read_jsonl(os.path.join(ctx.work, "cases.jsonl"))
             rows = [o for o in allrows if o["kind"] in ("trace", "seq")]
